@@ -4,7 +4,7 @@
     view_chain; write_through_view_changes_exactly (+ write_exact, write_exact_self, vmap_exact for whole-view updates);
     sym_index_* (SymMat packed storage is a bijection onto [0, M(M+1)/2)); tri_* (TriInFullUpperHelper);
     vsum_denotes / vnormsqr_denotes (folds); scalar_add_matrix / scalar_add_vector (scalar conventions);
-    assign_to_copied_column_block_refuted (known finding) next to resize_full_owner_ok (what does hold). *)
+    assign_to_copied_column_block_refuted (known finding) next to resize_full_owner_ok (what does hold) and resize_owner_ok_repaired / assign_to_copied_column_block_repaired (the model variant of the proposed repair). *)
 From Coq Require Import List Arith ZArith Bool Lia.
 Require Import C25_views_Model C25_views_Addr C25_views_Proofs.
 Import ListNotations.
@@ -291,18 +291,30 @@ Theorem C25_new_owner_ok b sh m n : size_ok sh m n = true -> wfv (new_view b sh 
 Proof. exact (new_owner_ok b sh m n). Qed.
 Print Assumptions C25_new_owner_ok.
 
-Theorem C25_resize_full_owner_ok W h v m n keep W1 v1 ro ld :
-  v_h v = HFull ro ld -> resize W h v m n keep = Some (W1, v1) -> (m, n) <> (v_nr v, v_nc v) ->
+Theorem C25_resize_full_owner_ok rp W h v m n keep W1 v1 ro ld :
+  v_h v = HFull ro ld -> resize rp W h v m n keep = Some (W1, v1) -> (m, n) <> (v_nr v, v_nc v) ->
   v_nr v1 = m /\ v_nc v1 = n /\ wfv v1 /\ injv v1.
-Proof. exact (resize_full_owner_ok W h v m n keep W1 v1 ro ld). Qed.
+Proof. exact (resize_full_owner_ok rp W h v m n keep W1 v1 ro ld). Qed.
 Print Assumptions C25_resize_full_owner_ok.
 
+Theorem C25_resize_owner_ok_repaired W h v m n keep W1 v1 :
+  resize true W h v m n keep = Some (W1, v1) -> (m, n) <> (v_nr v, v_nc v) -> m <> 1 -> n <> 1 ->
+  v_nr v1 = m /\ v_nc v1 = n /\ wfv v1 /\ injv v1.
+Proof. exact (resize_owner_ok_repaired W h v m n keep W1 v1). Qed.
+Print Assumptions C25_resize_owner_ok_repaired.
+
 Theorem C25_assign_to_copied_column_block_refuted :
-  exists v, getview (run_w false 1 refut_ops) 2 = Some v /\ v_owner v = true /\ v_nr v = 2 /\ v_nc v = 2 /\
-            velems false (run_w false 1 refut_ops) v = [[11]; [13]; [13]; [12]]%Z /\
-            velems false (run_w false 1 refut_ops) v <> [[11]; [12]; [13]; [14]]%Z /\ ~ wfv v.
+  exists v, getview (run_w false 1 false refut_ops) 2 = Some v /\ v_owner v = true /\ v_nr v = 2 /\ v_nc v = 2 /\
+            velems false (run_w false 1 false refut_ops) v = [[11]; [13]; [13]; [12]]%Z /\
+            velems false (run_w false 1 false refut_ops) v <> [[11]; [12]; [13]; [14]]%Z /\ ~ wfv v.
 Proof. exact (@assign_to_copied_column_block_refuted). Qed.
 Print Assumptions C25_assign_to_copied_column_block_refuted.
+
+Theorem C25_assign_to_copied_column_block_repaired :
+  exists v, getview (run_w false 1 true refut_ops) 2 = Some v /\ v_nr v = 2 /\ v_nc v = 2 /\ wfv v /\
+            velems false (run_w false 1 true refut_ops) v = [[11]; [12]; [13]; [14]]%Z.
+Proof. exact (@assign_to_copied_column_block_repaired). Qed.
+Print Assumptions C25_assign_to_copied_column_block_repaired.
 
 Theorem C25_ex_chain_runs : exists v, run_ops ex_ops ex_root = Some v /\ v_nr v = 2 /\ v_nc v = 1 /\ v_shape v = SVec /\
   chain_index ex_ops ex_root 1 0 = (3, 3) /\ count_op is_neg ex_ops = true /\ count_op is_tr ex_ops = false.
@@ -313,7 +325,7 @@ Theorem C25_ex_root_ok : wfv ex_root /\ injv ex_root.
 Proof. exact (@ex_root_ok). Qed.
 Print Assumptions C25_ex_root_ok.
 
-Theorem C25_ex_world_inb : let W := run_w false 1 [WNew SMat 4 5 1%Z] in getview W 0 = Some ex_root /\ inb W ex_root.
+Theorem C25_ex_world_inb : let W := run_w false 1 false [WNew SMat 4 5 1%Z] in getview W 0 = Some ex_root /\ inb W ex_root.
 Proof. exact (@ex_world_inb). Qed.
 Print Assumptions C25_ex_world_inb.
 
